@@ -54,5 +54,13 @@ func validateSpecAnnotations(name string, annotations map[string]string) error {
 		path = strings.Join([]string{name, path}, ".")
 	}
 
-	return k8s.ValidateAnnotations(annotations, path)
+	// Check the annotations the way they end up in a Spec file. Any byte of a
+	// value which is not valid UTF-8 gets written as the Unicode replacement
+	// character, which makes the value longer than it was.
+	written := make(map[string]string, len(annotations))
+	for k, v := range annotations {
+		written[k] = string([]rune(v))
+	}
+
+	return k8s.ValidateAnnotations(written, path)
 }
